@@ -4,7 +4,7 @@ For a seed that appears in several result files the last line wins (results afte
 import json, os, shutil, sys
 
 ROOT = os.path.dirname(os.path.dirname(os.path.abspath(__file__)))
-SRC = "/tmp/seed/out"
+SRCS = ["/tmp/seed/out", "/tmp/seed2/out", os.path.join(ROOT, "seeded")]   # where a seed's patch / demonstration / meta may be found
 
 
 def main():
@@ -25,14 +25,15 @@ def main():
     for seed in sorted(res):
         d = res[seed]
         confirmed = d.get("builds") and d.get("suite_passes_with_patch") and d.get("demo_fails_with_patch") and d.get("demo_passes_without_patch")
-        src = os.path.join(SRC, seed)
-        if not confirmed or not os.path.isdir(src):
+        src = next((os.path.join(d0, seed) for d0 in SRCS if os.path.isfile(os.path.join(d0, seed, "patch.diff"))), "")
+        if not confirmed or not src:
             rows.append((seed, "not kept (not confirmed: %s)" % {k: d.get(k) for k in ("builds", "suite_passes_with_patch", "demo_fails_with_patch", "demo_passes_without_patch")}, "", ""))
             continue
         dst = os.path.join(ROOT, "seeded", seed)
         os.makedirs(dst, exist_ok=True)
         for f in ("patch.diff", "demo_test.go"):
-            shutil.copy(os.path.join(src, f), dst)
+            if os.path.abspath(src) != os.path.abspath(dst):
+                shutil.copy(os.path.join(src, f), dst)
         meta = json.load(open(os.path.join(src, "meta.json")))
         meta["confirmed_by"] = ["git apply patch.diff in a scratch worktree of /repo HEAD", "go build ./... && go vet ./<test_dir>/",
                                 "go test -count=1 ./... (whole pinned suite) passes with the patch",
